@@ -8,3 +8,5 @@ pub use linear_model::*;
 pub use linearizer::*;
 pub use standard_linear_model::*;
 pub use standardizer::*;
+#[cfg(feature = "verif_hooks")]
+pub mod verif_hooks;
